@@ -142,7 +142,7 @@ func Memory(seed uint64) *Case {
 	r := rng.New(rng.Derive(seed, 0xC05))
 	p := &Profile{Name: "memory", MinSegs: 3, MaxSegs: 12, PoolMin: 3, PoolMax: 8,
 		WAlu: 3, WLoad: 4, WStore: 4, WLoop: 3, WLi: 1, WFwdBranch: r.Intn(2),
-		AddrRegsMax: 3, SubWord: r.Bool(), LoopMaxIter: 24, BigWorkingSet: r.Chance(2, 3),
+		AddrRegsMax: 3, SubWord: r.Bool(), LoopMaxIter: []int{12, 24, 48, 90}[r.Intn(4)], BigWorkingSet: r.Chance(2, 3),
 		WEndRet: 2, WEndFall: 1, WEndJump: 1, MemSizes: []int{1024, 2048, 4096, 8192, 16384}, MaxSteps: 20000}
 	return Generate(seed, p)
 }
